@@ -75,6 +75,15 @@ def run(tier):
     rc = random.Random(ck.seed + 3)
     for i in range(100 if tier == "quick" else 5000):
         cases.append(("f%d" % i, gen_cfg.source(gen_cfg.gen(rc, depth=rc.choice([1, 2, 3, 4]))), "control-flow-skeletons"))
+    # declarations that contain themselves, directly or through another one, by every kind of member type
+    forms = ["A", "[2]A", "[N]A", "[N][2]A", "[2][N]A", "&A", "&[2]A", "&[N]A", "[2]&A", "[]A", "&[]A"]
+    kq = 0
+    for f1 in forms:
+        cases.append(("q%d" % kq, "const N: usize = 2;\nstruct A\n{\n\tx: i32,\n\titems: %s,\n}\nfn main() -> i32\n{\n\tvar a: A;\n\ta.x = 1;\n\treturn: a.x\n}\n" % f1, "self-containing")); kq += 1
+        for f2 in forms[:6]:
+            cases.append(("q%d" % kq, "struct A\n{\n\tb: %s,\n}\nconst N: usize = 2;\nstruct B\n{\n\ta: %s,\n\tx: i32,\n}\nfn main() -> i32\n{\n\tvar v: B;\n\tv.x = 1;\n\treturn: v.x\n}\n" % (f1.replace("A", "B"), f2), "self-containing")); kq += 1
+    for e in ("N", "N + 1", "|:A|", "M", "|:[N]u8|"):
+        cases.append(("q%d" % kq, "const N: usize = %s;\nconst M: usize = N;\nstruct A\n{\n\titems: [M]u8,\n}\nfn main()\n{\n}\n" % e, "self-containing")); kq += 1
     # two and three modules that use the same builtins (state that survives from one module to the next)
     k2 = 0
     for b1 in ('print!("a\\n");', "abort!();", 'var s = format!("x", 1);', 'print!(12345i64, "\\n");'):
